@@ -230,6 +230,11 @@ func (cr *checkRun) generate(config string, tags string) {
 			sort.Strings(fr.Abstracted)
 			for c := range ex.usedContracts {
 				cr.contracts[c] = true
+				if cc := db.funcs[c]; cc != nil && cc.Opts["trust_ensures"] == "true" {
+					for _, en := range cc.Ensures {
+						cr.abstracted["ASSUMED (not proved): ensures of "+c+": "+en.Text] = true
+					}
+				}
 			}
 		}
 		cr.funcs = append(cr.funcs, fr)
